@@ -152,11 +152,16 @@ entries of C16 that ended in harness trouble (exit 2, never a verdict) under tha
 caught when run again. After the last changes, sweeps per property at the final worlds: C05 19/19,
 C06 20/20, C14 20/21 (C14-o missed: its route through `circuit.Parse(path)` needs a circuit with
 a few dozen INV gates; INV-heavy circuits were added and it has been caught with two seeds out of
-two since), C18 19/19, C19 20/20, C20 16/16, and C04, C08, C17 as far as the time allowed (`SWEEPS.txt` in /verif has the raw lines). Thorough tier on the unchanged tree: VERIF_SEED
+two since), C18 19/19, C19 20/20, C20 16/16, C04 18/18, C17 19/19, C08 18/20 (C08-p and the reversal
+of 6e416dc ended in exit 2, not a verdict: they remove the `sort` import that the last `fix:`,
+87f2ca4, now uses, so the combination did not build; both were rebased to keep the import and are
+caught). After that every patch that touches a file changed by one of the late fixes (145 of them)
+was checked to apply and to build. C02, C10, C11, C15, C16 were last swept as part of the whole
+sweeps above (`SWEEPS.txt` in /verif has the raw lines). Thorough tier on the unchanged tree: VERIF_SEED
 77, 2026 (each: 13 held, one false alarm of the C05 oracle, corrected - section 7), 31337 (found
 the `IOArg.Set` defect), 4242 (all 14 held), 777 (the five worlds changed after that: held), 90125
 (C05 C06 C14 C18 C19 after the bug-hunt fixes: held) and 5150 (C04 C08 C14 C20 after the second
-round, as far as the time allowed).
+round: held).
 
 ''' % (ordn[len(waves) - 1].capitalize(), len(rows), len(own), len(missed), len(rows), per_wave, ', '.join(m['name'] for m in notcaught))
 out += '''| change | property | what was changed | needs | clause that fires | missed at first? |
